@@ -176,6 +176,7 @@ func c09CRun(c C09CCase, st *kit.Stats) error {
 		}
 		cnt[cur[x.cn]]++
 		x.cn.Write(kit.EncodeCmd(x.last...))
+		time.Sleep(500 * time.Microsecond) // let the server number this command before the next intruder's commands arrive
 	}
 	for _, x := range ins {
 		wg.Add(1)
